@@ -31,8 +31,30 @@ def lemma_names(text):
     return re.findall(r'^\s*(?:Lemma|Theorem|Corollary)\s+(\w+)', text, flags=re.M)
 
 
+def check_pins(name, repo):
+    """pin areas: whole source files whose functions the hand-written models and the correspondence streams were
+    validated against; any edited, added or removed function is reported (logging and docstrings aside)"""
+    import json
+    snap = json.load(open(os.path.join(os.path.dirname(os.path.abspath(__file__)), 'pins.json')))[name]
+    out = []
+    for rel in sorted(snap):
+        try:
+            now = core.snapshot_file(repo, rel)
+        except (SyntaxError, OSError) as e:
+            out.append(('pinned source %s' % rel, False, '%s: %s' % (type(e).__name__, e)))
+            continue
+        want = snap[rel]
+        diffs = ['%s changed: now %r' % (k, now[k][:160]) for k in sorted(want) if k in now and now[k] != want[k]]
+        diffs += ['%s removed' % k for k in sorted(want) if k not in now]
+        diffs += ['%s added: %r' % (k, now[k][:160]) for k in sorted(now) if k not in want]
+        out.append(('pinned source %s (%d definitions)' % (rel, len(want)), not diffs, '; '.join(diffs[:4])))
+    return out
+
+
 def check_module(name, repo, workdir):
     """-> list of (obligation name, ok, message)"""
+    if name in schemas.PIN_AREAS:
+        return check_pins(name, repo)
     mod = schemas.MODULES[name]
     out = []
     gen_file = os.path.join(workdir, mod['module'] + '.v')
@@ -82,7 +104,8 @@ def expand(modules):
 
 def obligations(modules, repo=None):
     repo = repo or os.environ.get('VAKT_REPO', '/repo')
-    work = tempfile.mkdtemp(prefix='py2v-', dir=os.path.join(VERIF, '.work') if os.path.isdir(os.path.join(VERIF, '.work')) else None)
+    os.makedirs(os.path.join(VERIF, '.work'), exist_ok=True)
+    work = tempfile.mkdtemp(prefix='py2v-', dir=os.path.join(VERIF, '.work'))
     try:
         res = []
         for m in expand(modules):
@@ -106,7 +129,7 @@ def main(argv):
             keep = args.pop(0)
         else:
             mods.append(a)
-    mods = mods or list(schemas.MODULES)
+    mods = mods or (list(schemas.MODULES) + list(schemas.PIN_AREAS))
     if keep:
         os.makedirs(keep, exist_ok=True)
         rc = 0
